@@ -1,6 +1,7 @@
 //! rlv: verification drivers around the real risinglight crate (built with feature `verif`).
 mod enc;
 mod handler;
+mod lab;
 mod sqlrun;
 
 fn main() {
@@ -8,6 +9,7 @@ fn main() {
     let cmd = args.get(1).map(|s| s.as_str()).unwrap_or("");
     match cmd {
         "sql" => sqlrun::main(&args[2..]),
+        "lab" => lab::main(&args[2..]),
         _ => {
             eprintln!("usage: rlv sql [--mt N]");
             std::process::exit(2);
